@@ -18,9 +18,21 @@ from props import geolib as G
 TOL = 1e-9
 
 
+DRIVER_PATH = {}      # exe -> private copy made at the start of a run (a concurrent `lake build` replaces the original)
+
+
+def private_driver(exe, tmpdir):
+    import shutil
+    src = core.LEAN / '.lake' / 'build' / 'bin' / exe
+    dst = core.Path(str(tmpdir)) / exe
+    shutil.copy2(src, dst)
+    DRIVER_PATH[exe] = dst
+    return dst
+
+
 class Driver:
     def __init__(self, exe='drv_c10'):
-        path = core.LEAN / '.lake' / 'build' / 'bin' / exe
+        path = DRIVER_PATH.get(exe) or (core.LEAN / '.lake' / 'build' / 'bin' / exe)
         self.p = subprocess.Popen([str(path)], stdin=subprocess.PIPE, stdout=subprocess.PIPE, text=True, bufsize=1)
         self.n = 0
 
@@ -279,7 +291,9 @@ def compare(g, md, rd, fresh_real, loose=False, old_cmap=None):
                 diff('block_connection_name_list (as layer/column pairs)', len(m), len(r))
         except Exception as e:
             diff('name lists', 'cannot be split: %s' % e, '')
-    if md['fresh'] != fresh_real and not md['fresh'].startswith('exc') :
+    # (with floating names the direction of a re-added connection floats too, and a stale list may then coincide
+    #  with the recomputed one on one side only)
+    if md['fresh'] != fresh_real and not md['fresh'].startswith('exc') and not floating:
         diff('name lists fresh (blocks, connections)', md['fresh'], fresh_real)
     return diffs, nmap, cmap, floating
 
@@ -402,7 +416,7 @@ class ModelTie:
             self.hyp.setdefault(c, [0, 0])
             self.hyp[c][1] += 1
             self.hyp[c][0] += mi.get(c) == '1'
-        bad = sorted(c for c in oi if mi.get(c) != oi[c])
+        bad = sorted(c for c in oi if mi.get(c) != oi[c] and not (floating and c in ('blocks', 'connections')))
         if bad:
             self.disagreements.append(dict(facet='geo_inv', case=case,
                                            model='GeoInv clauses %s' % {c: mi.get(c) for c in bad},
